@@ -232,4 +232,66 @@ Proof.
   - apply Hev. exact Hfront.
   - apply body_nonterm. exact Hok2.
 Qed.
+(* the comment idiom: a block without labels or counter whose count is not positive, around any body *)
+Theorem zero_for_program cfg org (its : list Prog.item) es1 es2 lead count forw rofw skip blk cls v d_at content' nm au code start inp toks rkN :
+  let es := es1 ++ es2 in
+  validate cfg = true ->
+  spell_ok spell (flat_map il_labels (instrs its) ++ map fst (equs its)) ->
+  renders_doc2 spell org its es -> shape2_ok es -> Forall (fun xk => (1 <= snd xk)%nat) es ->
+  ranked spell (equs its) rkN ->
+  bodies_known cfg its ->
+  meaning (mconf_of cfg) (mkProg its org None nm au []) = MOk code start ->
+  Forall (fun xk => junk_free (fst xk)) es1 ->
+  t_typ forw = tokText -> tok_is_pseudo forw = true -> lower_is (t_val forw) "for" = true -> Forall plain_tok count ->
+  Forall bline_ok blk -> body_run blk 0 None [] = Some (O, d_at, content') -> Forall (fun vc => is_label (fst vc)) cls ->
+  t_typ rofw = tokText -> tok_is_pseudo rofw = true -> lower_is (t_val rofw) "for" = false -> lower_is (t_val rofw) "rof" = true ->
+  Forall plain_tok skip ->
+  (forall syms, front_symbols (doc_plines lead es1) = Some syms ->
+     expand_and_evaluate (filter noncomment count) (with_constants cfg syms) = Some (EOk v)) -> v <= 0 ->
+  lex_ascii inp = Some toks -> counts_modelled toks None = true ->
+  toks = repeat nl_tok lead ++ body es1 ++ (forw :: count ++ [nlt]) ++ flat_map bl_toks blk ++ lbl_seg cls ++ rofw :: skip ++ (nlt :: body es2 ++ [tEOF]) ->
+  compile_warrior cfg inp = COk code start (dmeta (mkPM [] [] []) es).
+Proof.
+  intros es Hv Hsp Hrd Hsh Hk1 Hrk Hbod Hmean Hjf Hft Hfp Hff Hcount Hblk Hrun Hcls Hrt Hrp Hrf Hrr Hskip Hev Hv0 Hlex Hcm Htoks.
+  apply (for_program_tokens spell cfg org its es lead nm au code start inp toks 1%nat rkN); try assumption;
+    [|unfold max_for_passes; lia].
+  pose proof (r2_ok spell its Hsp org its es Hrd (incl_refl _) Hsh) as Hok.
+  pose proof (r2_plines spell org its es Hrd Hok Hsh) as Hpl.
+  assert (Hshk : Forall (fun xk => labs_shape (fst xk) /\ (1 <= snd xk)%nat) es).
+  { apply Forall_forall. intros xk Hx. unfold shape2_ok in Hsh. rewrite Forall_forall in Hsh, Hk1. split; [apply Hsh|apply Hk1]; exact Hx. }
+  pose proof Hshk as Hshk'. unfold es in Hshk'. apply Forall_app in Hshk'. destruct Hshk' as [Hshk1 Hshk2].
+  pose proof Hok as Hok'. unfold es in Hok'. apply Forall_app in Hok'. destruct Hok' as [Hok1 Hok2].
+  unfold es in Hpl. rewrite flat_map_app in Hpl. apply Forall_app in Hpl. destruct Hpl as [Hpl1 _].
+  destruct (r2_app_inv es1 _ org its Hrd) as [org1 [its1 [its2 [Eits [R1 _]]]]].
+  assert (Hev_nd : NoDup (map spell (map fst (equs its)))).
+  { destruct Hsp as [_ _ Hinj Hnd _]. apply NoDup_map_spell.
+    - clear - Hnd. induction (flat_map il_labels (instrs its)) as [|a l IH]; [exact Hnd|]. cbn [app] in Hnd. inversion Hnd; subst. apply IH. assumption.
+    - intros a b Ha Hb. apply Hinj; apply in_or_app; right; assumption. }
+  assert (Hnd1 : NoDup (map spell (map fst (equs its1)))).
+  { pose proof Hev_nd as H. rewrite Eits, equs_app, !map_app in H. apply nodup_app_l in H. exact H. }
+  assert (Hsh1 : Forall (fun xk => labs_shape (fst xk)) es1) by (eapply Forall_impl; [|exact Hshk1]; intros a [Ha _]; exact Ha).
+  destruct (r2_scan_value spell org1 its1 es1 R1 Hsh1 [] Hnd1) as [syms Hsyms].
+  assert (Hfront : front_symbols (doc_plines lead es1) = Some syms).
+  { unfold front_symbols, doc_plines. rewrite scan_spec_app, scan_spec_empty, Hsyms. reflexivity. }
+  assert (Hpre : Forall pline_ok (doc_plines lead es1)).
+  { unfold doc_plines. apply Forall_app. split; [apply empty_pline_ok|exact Hpl1]. }
+  assert (Efin : ldoc_toks lead es = flat_map pl_toks (doc_plines lead es) ++ [tEOF]).
+  { unfold ldoc_toks. rewrite (doc_plines_toks lead es Hshk). rewrite <- app_assoc. reflexivity. }
+  assert (Hdone : unrolls cfg 0 (ldoc_toks lead es) (ldoc_toks lead es)).
+  { rewrite Efin. apply U_done; [|reflexivity|].
+    - unfold doc_plines. apply Forall_app. split; [apply empty_pline_ok|]. apply (r2_plines spell org its es Hrd Hok Hsh).
+    - unfold plain_symbols, doc_plines. rewrite scan_spec_app, scan_spec_empty.
+      apply (r2_scan spell org its es Hrd Hsh [] Hev_nd). intros m0. discriminate. }
+  assert (Eout : flat_map pl_out (doc_plines lead es1) ++ body es2 ++ [tEOF] = ldoc_toks lead es).
+  { rewrite (doc_out_junkfree lead es1 Hjf). rewrite (doc_plines_toks lead es1 Hshk1). unfold ldoc_toks, es. rewrite body_app.
+    rewrite <- !app_assoc. reflexivity. }
+  rewrite <- Eout. rewrite <- Eout in Hdone.
+  assert (Et : toks = flat_map pl_toks (doc_plines lead es1) ++ (forw :: count ++ [nlt]) ++ flat_map bl_toks blk
+                      ++ lbl_seg cls ++ rofw :: skip ++ (nlt :: body es2 ++ [tEOF])).
+  { rewrite Htoks. rewrite (doc_plines_toks lead es1 Hshk1). rewrite <- !app_assoc. reflexivity. }
+  rewrite Et.
+  apply (zero_block_unrolls cfg (doc_plines lead es1) forw count blk cls rofw skip (body es2) syms v d_at content'); try assumption.
+  - apply Hev. exact Hfront.
+  - apply body_nonterm. exact Hok2.
+Qed.
 End Flat.
